@@ -118,6 +118,7 @@ def tpStep (flags offs : Nat) (b : Buf) (i : Nat) (c : UInt8) (p : PTokParam) : 
   | .init | .initNxtVal | .fNxt =>
     if isLWSch c then tpLWS b flags i p id
     else if c == sep then .cont (i + 1) p
+    else if p.state == .fNxt && c == term && term != 0 then .done i .ok { p with state := .fin }
     else if !tokAllowedChar c flags then .done i .badChar { p with state := .err }
     else if p.state == .fNxt then .done i .moreValues { p with state := .initNxtVal }
     else .cont (i + 1) { p with state := .name, name := PField.set i i, all := PField.set i i }
